@@ -194,7 +194,7 @@ def implied(ex, fact, timeout_ms=20000):
         if i not in memo:
             memo[i] = True if z3.is_quantifier(t) else any(has_quant(c) for c in t.children())
         return memo[i]
-    sv = z3.Solver()
+    sv = z3.SimpleSolver()
     sv.set("timeout", timeout_ms)
     for h in ex.p.pc:
         if not has_quant(h):
